@@ -14,8 +14,8 @@ NOT_APPLICABLE = {}
 EXTRA = {
     "C01": "Also: orders 6-10 (12 thorough) with a reduced menu of mode lists; negative modes for unfold/fold; one caller-owned shape list reused across the calls of a case.",
     "C02": "Also: depth-2 call histories sharing argument objects; complex weights on real matrices; NumPy-integer indices; sample_khatri_rao with drawn indices (consistency only).",
-    "C03": "Also: factors of mixed real/complex kinds; weighting (non 0/1) masks; 2-D weights and partially invalid PARAFAC2 projections must be rejected.",
-    "C04": "Also: input decomposition unchanged with copy=True; ragged generic slices for SVD compression; per-factor scales 1e-19..1e+19.",
+    "C03": "Also: factors of mixed real/complex kinds; weighting (non 0/1) masks; 2-D weights and partially invalid PARAFAC2 projections must be rejected; rejection demanded of every conversion of a plain PARAFAC2 tuple (tensor, slices, single slice, unfolded, vec) and of cp_to_vec.",
+    "C04": "Also: input decomposition unchanged with copy=True; ragged generic slices for SVD compression; per-factor scales 1e-19..1e+19; mdotchain: every sequence of 2 (thorough 3) mode products on ONE CPTensor/TuckerTensor object (function/method x copy x operand that changes the mode size), continuing on the returned object or on the argument a copy=False step updated in place.",
     "C05": "Also: graded low-rank spectra; data units 1e-9 / 1e+9.",
     "C06": "Also: size-1 modes; callback that ends the run; mask x sparsity; negative fixed modes; verbose and estimator-class variants; memory of the previous iterate for masked HOOI.",
     "C07": "Also: memory-efficient MTTKRP registered as backend method; hals_nnls flags nonzero_rows / exact; HOOI with a randomised-SVD generator on a (9,4,4) tensor.",
@@ -30,7 +30,7 @@ EXTRA = {
     "C16": "Also: complex input; 240x260 matrices; callable SVDs; estimators rebuilt from get_params / configured by set_params; same-object refits.",
     "C18": "Also: data units 1e-9 / 1e6; mask x line search; CP weights of complex data must be complex.",
     "C19": "Also: refit and failed-refit histories; fit_transform outputs scribbled on by the caller; verbose fits; 1030-sample predictions; zero-channel data; einsum backend.",
-    "C20": "Also: per-method semantics when only some modes are equivalent; zero-row factor matrices; column scalings 1e-6..1e3.",
+    "C20": "Also: per-method semantics when only some modes are equivalent; zero-row factor matrices; column scalings 1e-6..1e3; factor sets handed over as tuples (a 2-tuple must not be read as (weights, factors)).",
 }
 
 
@@ -59,7 +59,11 @@ add("C17", "model_checking",
     "tensorly.backend and tensorly.tenalg managers, deduplicated on a canonical state that contains every data field the managers own; after every "
     "transition all threads are probed (get_backend, current_backend, a dispatched call) and compared with the set of specification states still "
     "consistent (trace inclusion). SX: the same operations run in real threads under a sys.settrace baton scheduler; every schedule with <=2 (quick) / <=3 "
-    "(thorough) pre-emptions at line / bytecode granularity is executed and the call/return history checked for linearizability against the spec.",
+    "(thorough) pre-emptions at line / bytecode granularity is executed and the call/return history checked for linearizability against the spec. "
+    "DX: in every state reached by a selection history of length <=2 (quick) / <=4 (thorough) every name of the managers' dispatch tables (functions and attributes) is "
+    "reached through every access path (manager attribute, reference taken before any selection, tensorly top level) in every thread with marker methods installed on "
+    "the backend classes, and must land on the backend get_backend() names in that thread. TX: the TLA+ spec graph (TLC) equals the Python spec graph and every labelled "
+    "spec edge is replayed on the real managers.",
     "Bounds: 2-3 threads, 2-3 backends, context nesting <=2, history length <=5 (quick) or to the fixpoint (thorough, nesting 1); stand-in NumPy-derived "
     "backends replace the uninstallable ones. Entering a context is modelled as two atomic steps (the statement does not promise atomicity against other "
     "threads' global selections). CPython bytecodes are atomic under the GIL.", engine="SX+TX")
